@@ -391,6 +391,12 @@ func runC01(c *Ctx) {
 	})
 
 	// ---- R-C01-HASHARMS
+	runC01HashArms(c)
+}
+
+// runC01HashArms: shape and exhaustiveness of z.KeyToHash (shared with C08's no-panic rule).
+func runC01HashArms(c *Ctx) {
+	L, P := c.L, c.P
 	c.Group("R-C01-HASHARMS", "z.KeyToHash", func() {
 		fn := P.Fn("z", "", "KeyToHash")
 		L.Analysed(fname(fn))
